@@ -388,7 +388,7 @@ def compress(codec, b):
     raise ValueError("codec %d not available in the independent writer" % codec)
 
 
-def build_file(columns, codec=0, with_crc=False, created_by=b"robust_pq", schema_elems=None):
+def build_file(columns, codec=0, with_crc=False, created_by=b"robust_pq", schema_elems=None, kv=None, extras=False):
     """columns: list of dicts {name, type, rep, tlen, rows (values or None), dict (bool), enc}
     One row group, one data page (+ optional dictionary page) per column.
     Nested schemas: give schema_elems = [(name, type or None, repetition or None, num_children, tlen), ...]
@@ -442,6 +442,8 @@ def build_file(columns, codec=0, with_crc=False, created_by=b"robust_pq", schema
               [9, T_I64, data_off]]
         if dict_off is not None:
             md.append([11, T_I64, dict_off])
+        if extras:            # encoding_stats: list<PageEncodingStats{page_type, encoding, count}>
+            md.append([13, T_LIST, ("list", T_STRUCT, [[[1, T_I32, 0], [2, T_I32, enc], [3, T_I32, 1]]], None)])
         chunks.append([[2, T_I64, start], [3, T_STRUCT, md]])
     schema = [[[4, T_BINARY, b"schema"], [5, T_I32, len(columns)]]]
     if schema_elems is not None:
@@ -468,8 +470,14 @@ def build_file(columns, codec=0, with_crc=False, created_by=b"robust_pq", schema
         e += [[3, T_I32, col.get("rep", REQUIRED)], [4, T_BINARY, col["name"].encode()]]
         schema.append(e)
     rg = [[1, T_LIST, ("list", T_STRUCT, chunks, None)], [2, T_I64, len(out) - 4], [3, T_I64, nrows]]
-    footer = enc_struct([[1, T_I32, 1], [2, T_LIST, ("list", T_STRUCT, schema, None)], [3, T_I64, nrows],
-                         [4, T_LIST, ("list", T_STRUCT, [rg], None)], [6, T_BINARY, created_by]])
+    if extras:                # file_offset, total_compressed_size, ordinal
+        rg += [[5, T_I64, 4], [6, T_I64, len(out) - 4], [7, T_I16, 0]]
+    ff = [[1, T_I32, 1], [2, T_LIST, ("list", T_STRUCT, schema, None)], [3, T_I64, nrows],
+          [4, T_LIST, ("list", T_STRUCT, [rg], None)]]
+    if kv:
+        ff.append([5, T_LIST, ("list", T_STRUCT, [[[1, T_BINARY, k], [2, T_BINARY, v]] for k, v in kv], None)])
+    ff.append([6, T_BINARY, created_by])
+    footer = enc_struct(ff)
     out += footer + struct.pack("<I", len(footer)) + MAGIC
     return bytes(out)
 
